@@ -315,16 +315,19 @@ func scopeSpecs(scope string) (*enumerator, bool) {
 		// Q2: 1 nonterminal, bodies up to 3.
 		e.sampled("Q2-1nt-len3", 11, 40, 1, 2, 2, 3, false)
 		// Q3: 2 nonterminals.
-		e.sampled("Q3-2nt-len3", 12, 300, 2, 2, 2, 3, false)
+		e.sampled("Q3-2nt-len3", 12, 170, 2, 2, 2, 3, false)
 		// Q4: error family, 1 and 2 nonterminals.
 		e.sampled("Q4-err-1nt", 13, 40, 1, 2, 2, 3, true)
-		e.sampled("Q4-err-2nt", 14, 110, 2, 2, 2, 3, true)
+		e.sampled("Q4-err-2nt", 14, 70, 2, 2, 2, 3, true)
 	}
 	switch scope {
 	case "quick":
 		quick()
 	case "thorough":
 		quick()
+		// longer runs of the quick strides Q3 and Q4 (the samples are prefix stable)
+		e.sampled("Q3-2nt-len3", 12, 300, 2, 2, 2, 3, false)
+		e.sampled("Q4-err-2nt", 14, 110, 2, 2, 2, 3, true)
 		// T1: exhaustive, 1 nonterminal over {a,b,c,S}: 1..2 alternatives of
 		// length 0..2, and 3 alternatives of length 0..1.
 		e.exhaustive1("T1-exh-1nt-abc-len2", 3, 1, 2)
